@@ -457,6 +457,7 @@ pub fn gen_plan(rng: &mut Rng, tier: Tier) -> Plan {
         // a jar that classifies its entries by content and hands classes out under other names than `*.class`
         // (missed seeded change C14-14: the index pass picked entries by the look of their names)
         lp.odd_names = z.chance(25);
+        lp.renumber = z.chance(25);
         p.lazy = Some(lp);
     }
     if let Some(st) = &p.via_text {
